@@ -102,7 +102,16 @@ func segKey(s *seg.PathSegment) string {
 	return fmt.Sprintf("%x|%d|%d|%d|%d", s.FullID(), s.Info.Timestamp.Unix(), s.Info.SegmentID, v, s.MaxExpiry().Unix())
 }
 
+// extreme info timestamps (around 2^32 s) for the variants of segment 7
+var farInfo = [nVar]int64{1000, math.MaxUint32, math.MaxUint32, math.MaxUint32 + 6}
+
 func build(hops []segbuild.Hop, v variant, isBeacon bool, segI, varI int) *item {
+	if segI == nSeg-1 {
+		v.info = farInfo[varI]
+		if varI == 3 {
+			v.exp = 255
+		}
+	}
 	hs := make([]segbuild.Hop, len(hops))
 	for i, h := range hops {
 		h.Exp = v.exp
@@ -325,7 +334,8 @@ type pOp struct {
 var groupChoices = [][]uint64{nil, {0}, {7}, {9}, {7, 9}, {0, 7}, {9, 7, 9}, {math.MaxUint64}}
 
 func (p *pool) nowChoices() []int64 {
-	set := map[int64]bool{0: true, 100000: true}
+	set := map[int64]bool{0: true, 1: true, 100000: true, math.MaxInt32: true, math.MaxInt32 + 1: true,
+		math.MaxUint32: true, math.MaxUint32 + 1: true, 1 << 33: true}
 	for s := 0; s < nSeg; s++ {
 		for v := 0; v < nVar; v++ {
 			e := p.items[s][v].exp
